@@ -21,7 +21,8 @@ EnvCC == { <<"x64-sysv", "cdecl">>, <<"x64-sysv", "x64win">>, <<"x64-sysv", "vec
            <<"a64-aapcs", "cdecl">>, <<"a64-aapcs", "lightcall2">>, <<"a64-apple", "cdecl">> }
 
 (* the quick profile skips pairs whose frames differ from a kept pair only in the argument registers *)
-QuickSkip == { <<"x64-sysv", "lightcall4">>, <<"x64-win", "stdcall">>, <<"x86-win", "cdecl">>, <<"a64-apple", "cdecl">> }
+QuickSkip == { <<"x64-sysv", "lightcall4">>, <<"x64-win", "stdcall">>, <<"x86-win", "cdecl">>, <<"a64-apple", "cdecl">>,
+               <<"x86-win", "thiscall">>, <<"x86-sysv", "regparm3">> }
 
 Env(cc) == cc[1][1]
 IsX86(cc) == Env(cc) \in {"x86-sysv", "x86-win"}
